@@ -123,6 +123,17 @@ func extremeInt64(t *rapid.T, label string) int64 {
 	return rapid.Int64().Draw(t, label)
 }
 
+func extremeUint64(t *rapid.T, label string) uint64 {
+	switch rapid.IntRange(0, 3).Draw(t, label+".x") {
+	case 0:
+		return rapid.SampledFrom([]uint64{0, 1, math.MaxInt64, math.MaxInt64 + 1, math.MaxUint64, math.MaxUint64 - 1, math.MaxUint32, math.MaxUint32 + 1}).Draw(t, label+".ext")
+	case 1:
+		// the upper half of the range, which a signed parse or a float detour cannot hold
+		return 1<<63 | rapid.Uint64().Draw(t, label+".hi")
+	}
+	return rapid.Uint64().Draw(t, label)
+}
+
 func finiteFloat(t *rapid.T, label string) float64 {
 	if rapid.IntRange(0, 3).Draw(t, label+".x") == 0 {
 		return rapid.SampledFrom([]float64{0, math.Copysign(0, -1), 1, -1, math.MaxFloat64, -math.MaxFloat64, math.SmallestNonzeroFloat64, 1e21, 1e-7, 0.1}).Draw(t, label+".ext")
@@ -139,7 +150,7 @@ func genJS(t *rapid.T) *JS {
 		A: extremeInt64(t, "A"), B: jsonString(t, "B", 200),
 		C: rapid.SliceOfN(rapid.Int32(), 0, 6).Draw(t, "C"),
 		F: finiteFloat(t, "F"), G: rapid.Bool().Draw(t, "G"),
-		J: rapid.Uint64().Draw(t, "J"), K: rapid.Int8().Draw(t, "K"),
+		J: extremeUint64(t, "J"), K: rapid.Int8().Draw(t, "K"),
 		L: vt.Bytes(t, "L", 100), M: float32(finiteFloat(t, "M")),
 	}
 	if math.IsInf(float64(v.M), 0) {
@@ -205,7 +216,7 @@ func genFS(t *rapid.T) *FS {
 	v := &FS{
 		Name: string(vt.Bytes(t, "Name", 100)),
 		A:    int(extremeInt64(t, "A")), B: rapid.Int8().Draw(t, "B"), C: extremeInt64(t, "C"),
-		D: uint(rapid.Uint64().Draw(t, "D")), E: rapid.Uint8().Draw(t, "E"), F: rapid.Uint64().Draw(t, "F"),
+		D: uint(extremeUint64(t, "D")), E: rapid.Uint8().Draw(t, "E"), F: extremeUint64(t, "F"),
 		G: float32(anyFloat(t, "G")), H: anyFloat(t, "H"), I: rapid.Bool().Draw(t, "I"),
 		N:  rapid.SliceOfN(rapid.Int32(), 0, 5).Draw(t, "N"),
 		U:  rapid.SliceOfN(rapid.Uint16(), 0, 5).Draw(t, "U"),
@@ -499,7 +510,7 @@ func TestC11RoundTrip(t *testing.T) {
 				roundTrip(t, c, v, &d, func() interface{} { return d }, v)
 				canon = fmt.Sprint("i8:", v)
 			case 7:
-				v := rapid.Uint64().Draw(t, "u64")
+				v := extremeUint64(t, "u64")
 				var d uint64
 				roundTrip(t, c, v, &d, func() interface{} { return d }, v)
 				canon = fmt.Sprint("u64:", v)
